@@ -143,7 +143,10 @@ func main() {
 		var must []string
 		lateFail := false
 		dynFail := false
-		switch r.Pick(12) {
+		switch r.Pick(14) {
+		case 12, 13:
+			// custom functions taking the node implicitly, evaluated on several nodes of one record
+			must = []string{"implicit-node", "plain"}
 		case 10, 11:
 			// failing declarations inside xpath_dynamic + the identical declarations as members
 			must = []string{"dyn-failing", "fuses", "plain"}
@@ -229,7 +232,7 @@ func main() {
 
 		nontrivial := feats["identical-decls"] || feats["identical-decls-anchoring"] || feats["template"] ||
 			feats["javascript"] || feats["javascript_with_context"] || feats["template-dynamic-anchors"] ||
-			feats["js-whitespace"] || feats["js-throw"] || feats["js-global-probe"]
+			feats["js-whitespace"] || feats["js-throw"] || feats["js-global-probe"] || feats["implicit-node"]
 		canon, _ := json.Marshal(cs)
 		sum.Count(string(canon), nontrivial)
 		sum.Hist("format:" + f.Name)
